@@ -1069,16 +1069,17 @@ where
         if let Some(comments) = &self.comments {
             comments.with_leading(span.lo, |comments| {
                 let pragma = comments.iter().find_map(|comment| {
-                    let trimmed = comment.text.trim();
-                    trimmed
-                        .strip_prefix('*')
-                        .unwrap_or(trimmed)
-                        .trim()
-                        .strip_prefix("@jsx")
-                        // `@jsx` must be a whole word (not `@jsxImportSource`, `@jsxFrag`, ...)
-                        // and the pragma is the single word that follows it
-                        .filter(|rest| rest.starts_with(char::is_whitespace))
-                        .and_then(|rest| rest.split_whitespace().next())
+                    // every line of the comment may carry the annotation (JSDoc style)
+                    comment.text.lines().find_map(|line| {
+                        line.trim()
+                            .trim_start_matches('*')
+                            .trim_start()
+                            .strip_prefix("@jsx")
+                            // `@jsx` must be a whole word (not `@jsxImportSource`, ...)
+                            // and the pragma is the single word that follows it
+                            .filter(|rest| rest.starts_with(char::is_whitespace))
+                            .and_then(|rest| rest.split_whitespace().next())
+                    })
                 });
                 if let Some(pragma) = pragma {
                     self.pragma = Some(pragma.to_string());
